@@ -3,6 +3,7 @@ CONSTANTS
   Budget = 4
   Enabled = {"Name", "Const", "Attribute", "Call", "Subscript", "Slice", "Starred", "Tuple", "List", "Expression"}
   NameSet = {"a", "b"}
+  ExtraParens = FALSE
   Emit = TRUE
 SPECIFICATION Spec
 INVARIANTS EmitOK
